@@ -585,3 +585,499 @@ Proof.
   intros Hp Hlt. unfold run. rewrite Hp.
   destruct (N.leb_spec (eff_threshold c) (N.of_nat (length valid))); [lia | reflexivity].
 Qed.
+
+(* ------------------------------------------------------------------ *)
+(* the stages *)
+
+Lemma lookup_filter_key {V} (P : N -> bool) (m : smap V) k :
+  lookup k (filter (fun x => P (fst x)) m) = if P k then lookup k m else None.
+Proof.
+  induction m as [|[k' v] m IH]; cbn [filter lookup fst].
+  - destruct (P k); reflexivity.
+  - destruct (P k') eqn:Ep; cbn [lookup].
+    + destruct (N.eqb_spec k k'); [subst; rewrite Ep; reflexivity | exact IH].
+    + rewrite IH. destruct (N.eqb_spec k k'); [subst; rewrite Ep; reflexivity | reflexivity].
+Qed.
+
+Lemma memN_filter_negb (P : N -> bool) l d :
+  memN d (filter (fun x => negb (P x)) l) = true -> P d = false.
+Proof.
+  intros H. apply memN_In in H. apply filter_In in H. destruct H as [_ H].
+  destruct (P d); [discriminate | reflexivity].
+Qed.
+
+Lemma fold_loop_inl {A B X} (f : A + B -> X -> A + B) (Hf : forall e x, f (inl e) x = inl e) xs e :
+  fold_left f xs (inl e) = inl e.
+Proof. induction xs as [|x xs IH]; cbn [fold_left]; [reflexivity|]. rewrite Hf. exact IH. Qed.
+
+Section Stages.
+Variable anc : oid -> oid -> bool.
+Variable U : universe.
+
+Notation load_at := (load_at U).
+Notation load := (load U).
+Notation load_all := (load_all U).
+Notation ancestry_of := (ancestry_of anc).
+
+Lemma load_at_Loaded t' t o : load_at t' = Loaded t o ->
+  t = t' /\ lookup t U = Some o /\ so_valid o = true.
+Proof.
+  unfold Fetch.load_at. destruct (lookup t' U) as [o'|] eqn:El; [|discriminate].
+  destruct (so_valid o') eqn:Ev; [|discriminate].
+  intros E. inversion E; subst. auto.
+Qed.
+
+Lemma load_Loaded sigtips L r t o : load sigtips L r = Loaded t o ->
+  lookup t U = Some o /\ so_valid o = true /\
+  (lookup r sigtips = Some t \/ (lookup r sigtips = None /\ sigrefs_of L r = Some t)).
+Proof.
+  unfold Fetch.load. destruct (lookup r sigtips) as [t'|] eqn:Es.
+  - intros H. apply load_at_Loaded in H. destruct H as [-> [H1 H2]]. auto.
+  - destruct (sigrefs_of L r) as [t'|] eqn:El; [|discriminate].
+    intros H. apply load_at_Loaded in H. destruct H as [-> [H1 H2]]. auto.
+Qed.
+
+Lemma load_all_spec sigtips L rs : forall acc signed,
+  load_all sigtips L rs acc = Some signed -> sorted acc ->
+  sorted signed /\
+  forall r t o, lookup r signed = Some (t, o) ->
+    lookup r acc = Some (t, o) \/ (In r rs /\ load sigtips L r = Loaded t o).
+Proof.
+  induction rs as [|r0 rs IH]; intros acc signed; cbn [Fetch.load_all].
+  - intros E Hs. inversion E; subst. split; [exact Hs | auto].
+  - destruct (load sigtips L r0) as [t0 o0| |] eqn:El; [| |discriminate].
+    + intros E Hs. destruct (IH _ _ E (sorted_insert _ _ _ Hs)) as [Hs' H]. split; [exact Hs'|].
+      intros r t o Hl. destruct (H r t o Hl) as [Ha|[Hin Hld]].
+      * rewrite lookup_insert_any in Ha. destruct (N.eqb_spec r r0).
+        -- subst. inversion Ha; subst. right. split; [left; reflexivity | exact El].
+        -- left. exact Ha.
+      * right. split; [right; exact Hin | exact Hld].
+    + intros E Hs. destruct (IH _ _ E Hs) as [Hs' H]. split; [exact Hs'|].
+      intros r t o Hl. destruct (H r t o Hl) as [Ha|[Hin Hld]]; [left; exact Ha|].
+      right. split; [right; exact Hin | exact Hld].
+Qed.
+
+Definition signed_ok (c : cfg) (tips : smap (list update)) (signed : smap (oid * sigobj)) : Prop :=
+  forall r t o, lookup r signed = Some (t, o) ->
+    lookup t U = Some o /\ so_valid o = true /\ is_blocked c r = false /\
+    sp_shape (pol c r) t (updates_of tips r).
+
+Definition staged_ok (c : cfg) (s : staged) : Prop :=
+  sorted (st_tips s) /\ sorted (st_signed s) /\ signed_ok c (st_tips s) (st_signed s).
+
+Lemma advertised_NoDup c S : sorted S -> NoDup (map fst (advertised c S)).
+Proof.
+  intros Hs. unfold advertised. apply NoDup_map_filter.
+  rewrite map_map. cbn [fst]. apply sorted_NoDup_keys in Hs. exact Hs.
+Qed.
+
+Lemma advertised_In c S x : In x (advertised c S) ->
+  is_blocked c (fst x) = false /\ in_scope c (fst x) = true /\
+  exists ns, In (fst x, ns) S /\ fst (snd x) = lookup RAD_ID ns /\ snd (snd x) = lookup SIGREFS ns.
+Proof.
+  unfold advertised. intros H. apply filter_In in H. destruct H as [Hin Hf].
+  apply andb_true_iff in Hf. destruct Hf as [Hf _]. apply andb_true_iff in Hf. destruct Hf as [Hb Hsc].
+  apply in_map_iff in Hin. destruct Hin as [[r ns] [E Hin]]. subst x. cbn [fst snd] in *.
+  split; [destruct (is_blocked c r); [discriminate | reflexivity]|].
+  split; [exact Hsc|]. exists ns. auto.
+Qed.
+
+Lemma special_shape c r i t : sp_shape (pol c r) t (special_updates c r i (Some t)).
+Proof.
+  unfold special_updates. exists (match i with Some x => [Direct RAD_ID x (pol c r)] | None => [] end),
+    [Direct SIGREFS t (pol c r)].
+  split; [reflexivity|]. split; [destruct i as [x|]; [right; exists x; reflexivity | left; reflexivity]|].
+  right. reflexivity.
+Qed.
+
+Lemma special_shape_none c r i t : sp_shape (pol c r) t (special_updates c r i None).
+Proof.
+  unfold special_updates. exists (match i with Some x => [Direct RAD_ID x (pol c r)] | None => [] end), [].
+  split; [reflexivity|]. split; [destruct i as [x|]; [right; exists x; reflexivity | left; reflexivity]|].
+  left. reflexivity.
+Qed.
+
+Lemma nil_shape p t : sp_shape p t [].
+Proof. exists [], []. repeat split; auto. Qed.
+
+Lemma stage_special_ok c L S s : sorted S ->
+  stage_special U c L S = inr s -> staged_ok c s.
+Proof.
+  intros HS. unfold stage_special. cbv zeta.
+  set (adv := advertised c S).
+  destruct (negb (eff_threshold c =? 0) && _ && _); [discriminate|].
+  match goal with |- context [Fetch.load_all _ ?st _ _ _] => set (sigtips := st) end.
+  match goal with |- context [mkStaged ?tp _] => set (tips := tp) end.
+  destruct (load_all sigtips L (map fst adv ++ eff_delegates c) []) as [signed|] eqn:Ela; [|discriminate].
+  intros E. inversion E; subst s. clear E.
+  pose proof (advertised_NoDup c S HS) as Hnd. fold adv in Hnd.
+  assert (TT : sorted tips /\
+    (forall x, In x adv -> updates_of tips (fst x) = updates_of [] (fst x) ++ special_updates c (fst x) (fst (snd x)) (snd (snd x))) /\
+    (forall r, ~ In r (map fst adv) -> lookup r tips = lookup r ([] : smap (list update)))).
+  { destruct (fold_add_tips fst (fun x => special_updates c (fst x) (fst (snd x)) (snd (snd x))) adv Hnd [] sorted_nil)
+      as [T1 [T2 [T3 _]]]. exact (conj T1 (conj T2 T3)). }
+  destruct TT as [T1 [T2 T3]].
+  assert (G1 : forall x, In x adv -> lookup (fst x) sigtips =
+                 match snd (snd x) with Some t => Some t | None => None end).
+  { exact (proj1 (fold_insert_lookup fst (fun x : nid * (option oid * option oid) => snd (snd x)) adv Hnd ([] : smap oid))). }
+  destruct (load_all_spec _ _ _ _ _ Ela sorted_nil) as [Hss Hsig].
+  unfold staged_ok. cbn [st_tips st_signed]. split; [exact T1|]. split; [exact Hss|].
+  intros r t o Hl. destruct (Hsig r t o Hl) as [Hc|[Hin Hld]]; [discriminate|].
+  destruct (load_Loaded _ _ _ _ _ Hld) as [HU [Hv Hsrc]].
+  split; [exact HU|]. split; [exact Hv|].
+  destruct (in_dec N.eq_dec r (map fst adv)) as [Hadv|Hnadv].
+  - apply in_map_iff in Hadv. destruct Hadv as [x [Ex Hx]]. subst r.
+    destruct (advertised_In c S x Hx) as [Hb _]. split; [exact Hb|].
+    rewrite (T2 x Hx). cbn [updates_of lookup app].
+    specialize (G1 x Hx). destruct (snd (snd x)) as [t'|].
+    + destruct Hsrc as [Hs|[Hs _]]; rewrite G1 in Hs; [|discriminate].
+      inversion Hs; subst. apply special_shape.
+    + apply special_shape_none.
+  - split.
+    + apply in_app_or in Hin. destruct Hin as [Hin|Hin]; [contradiction|].
+      unfold eff_delegates in Hin. apply filter_In in Hin. destruct Hin as [_ Hin].
+      destruct (is_blocked c r); [discriminate | reflexivity].
+    + unfold updates_of. rewrite (T3 r Hnadv). cbn [lookup]. apply nil_shape.
+Qed.
+
+Lemma clean_refs_at_spec c (ras0 : list (nid * oid)) : forall acc : smap oid, sorted acc ->
+  (forall r a, lookup r acc = Some a -> is_blocked c r = false) ->
+  let m := fold_left (fun m x => if is_blocked c (fst x) then m else insert (fst x) (snd x) m) ras0 acc in
+  sorted m /\ forall r a, lookup r m = Some a -> is_blocked c r = false.
+Proof.
+  induction ras0 as [|x ras IH]; intros acc Hs Hb; cbn [fold_left]; [split; assumption|].
+  apply IH.
+  - destruct (is_blocked c (fst x)); [exact Hs | apply sorted_insert; exact Hs].
+  - destruct (is_blocked c (fst x)) eqn:Eb; [exact Hb|].
+    intros r a. rewrite lookup_insert_any. destruct (N.eqb_spec r (fst x)); [subst; auto | apply Hb].
+Qed.
+
+Lemma stage_sigrefs_at_ok c L ras0 s :
+  stage_sigrefs_at U c L ras0 = inr s -> staged_ok c s.
+Proof.
+  unfold stage_sigrefs_at. cbv zeta. set (ras := clean_refs_at c ras0).
+  match goal with |- context [forallb ?f ras] => destruct (forallb f ras) end; cbn [negb]; [|discriminate].
+  match goal with |- context [mkStaged ?tp _] => set (tips := tp) end.
+  destruct (load_all ras L (map fst ras) []) as [signed|] eqn:Ela; [|discriminate].
+  intros E. inversion E; subst s. clear E.
+  assert (Hras : sorted ras /\ forall r a, lookup r ras = Some a -> is_blocked c r = false).
+  { unfold ras, clean_refs_at. apply clean_refs_at_spec; [apply sorted_nil | intros r a H; discriminate]. }
+  destruct Hras as [Hrs Hrb].
+  pose proof (sorted_NoDup_keys _ Hrs) as Hnd. unfold keys in Hnd.
+  assert (TT : sorted tips /\
+    (forall x, In x ras -> updates_of tips (fst x) = updates_of [] (fst x) ++ [Direct SIGREFS (snd x) (pol c (fst x))])).
+  { destruct (fold_add_tips fst (fun x : nid * oid => [Direct SIGREFS (snd x) (pol c (fst x))]) ras Hnd [] sorted_nil)
+      as [T1 [T2 [T3 _]]]. exact (conj T1 T2). }
+  destruct TT as [T1 T2].
+  destruct (load_all_spec _ _ _ _ _ Ela sorted_nil) as [Hss Hsig].
+  unfold staged_ok. cbn [st_tips st_signed]. split; [exact T1|]. split; [exact Hss|].
+  intros r t o Hl. destruct (Hsig r t o Hl) as [Hc|[Hin Hld]]; [discriminate|].
+  destruct (load_Loaded _ _ _ _ _ Hld) as [HU [Hv Hsrc]].
+  split; [exact HU|]. split; [exact Hv|].
+  destruct (In_keys_lookup r ras Hin) as [a Ha].
+  split; [eapply Hrb; exact Ha|].
+  destruct Hsrc as [Hs|[Hs _]]; rewrite Ha in Hs; [|discriminate]. inversion Hs; subst a.
+  pose proof (lookup_In _ _ _ Ha) as Hx. pose proof (T2 (r, t) Hx) as T2x. cbn [fst snd] in T2x.
+  rewrite T2x. cbn [updates_of lookup app].
+  exists [], [Direct SIGREFS t (pol c r)]. repeat split; auto.
+Qed.
+
+(* after DataRefs and the removal of unsigned namespaces *)
+Definition tips_ok (c : cfg) (L : store) (signed : smap (oid * sigobj)) (tips : smap (list update)) : Prop :=
+  forall r us, lookup r tips = Some us ->
+    exists t o sp, lookup r signed = Some (t, o) /\
+      lookup t U = Some o /\ so_valid o = true /\ is_blocked c r = false /\
+      sp_shape (pol c r) t sp /\ us = sp ++ data_part (ns_of L r) (so_content o).
+
+Lemma stage_data_ok c L s : staged_ok c s ->
+  let s' := drop_unsigned (stage_data L s) in
+  st_signed s' = st_signed s /\ sorted (st_tips s') /\ tips_ok c L (st_signed s) (st_tips s').
+Proof.
+  intros [Ht [Hs Hok]]. cbn zeta. unfold drop_unsigned, stage_data. cbn [st_tips st_signed].
+  split; [reflexivity|].
+  pose proof (sorted_NoDup_keys _ Hs) as Hnd. unfold keys in Hnd.
+  destruct (fold_add_tips fst (fun x : nid * (oid * sigobj) => data_updates L (fst x) (snd (snd x)))
+              (st_signed s) Hnd (st_tips s) Ht) as [T1 [T2 [T3 _]]]. cbn zeta in *.
+  split; [apply sorted_filter; exact T1|].
+  intros r us Hl.
+  rewrite (lookup_filter_key (fun k => mem k (st_signed s))) in Hl.
+  destruct (mem r (st_signed s)) eqn:Em; [|discriminate].
+  apply mem_lookup in Em. destruct Em as [[t o] Hsg].
+  destruct (Hok r t o Hsg) as [HU [Hv [Hb Hsh]]].
+  exists t, o, (updates_of (st_tips s) r). repeat split; try assumption.
+  pose proof (lookup_In _ _ _ Hsg) as Hx. specialize (T2 _ Hx). cbn [fst snd] in T2.
+  unfold updates_of in T2 at 1. rewrite Hl in T2. rewrite T2. reflexivity.
+Qed.
+
+(* ------------------------------------------------------------------ *)
+(* the validation loop *)
+
+Definition verdict_ok (L : store) (r : nid) (t : oid) (o : sigobj) (us : list update) : Prop :=
+  validate us (so_content o) = true /\
+  forall a, sigrefs_of L r = Some a ->
+    (a = t \/ anc a t = true) /\ exists oa, lookup a U = Some oa /\ so_valid oa = true.
+
+Lemma loop_step_inr c L tips valid x tips1 valid1 :
+  loop_step anc U c L (inr (tips, valid)) x = inr (tips1, valid1) ->
+  (tips1 = tips \/ tips1 = del (fst x) tips) /\
+  (is_blocked c (fst x) = false -> tips1 = tips ->
+     lookup (fst x) tips <> None -> verdict_ok L (fst x) (fst (snd x)) (snd (snd x)) (updates_of tips (fst x))) /\
+  (valid1 = valid \/ valid1 = del (fst x) valid \/
+   (valid1 = sset_add (fst x) valid /\ is_delegate c (fst x) = true /\ is_blocked c (fst x) = false /\
+    tips1 = tips /\ validate (updates_of tips (fst x)) (so_content (snd (snd x))) = true)).
+Proof.
+  destruct x as [r [t o]]. cbn [Fetch.loop_step fst snd].
+  destruct (is_blocked c r) eqn:Eb.
+  { intros E. inversion E; subst. split; [left; reflexivity|].
+    split; [intros H; discriminate | left; reflexivity]. }
+  assert (Hcheck : forall res : result + (smap (list update) * sset),
+    (if validate (updates_of tips r) (so_content o)
+     then inr (tips, if is_delegate c r then sset_add r valid else valid)
+     else inr (del r tips, if is_delegate c r then del r valid else valid)) = res ->
+    res = inr (tips1, valid1) ->
+    (tips1 = tips \/ tips1 = del r tips) /\
+    (tips1 = tips -> lookup r tips <> None -> validate (updates_of tips r) (so_content o) = true) /\
+    (valid1 = valid \/ valid1 = del r valid \/
+     (valid1 = sset_add r valid /\ is_delegate c r = true /\ false = false /\
+      tips1 = tips /\ validate (updates_of tips r) (so_content o) = true))).
+  { intros res <-. destruct (validate (updates_of tips r) (so_content o)) eqn:Ev; intros E; inversion E; subst.
+    - split; [left; reflexivity|]. split; [auto|].
+      destruct (is_delegate c r); [right; right; auto | left; reflexivity].
+    - split; [right; reflexivity|]. split.
+      + intros Hd Hn. exfalso. apply Hn. rewrite <- Hd at 1. rewrite lookup_del, N.eqb_refl. reflexivity.
+      + destruct (is_delegate c r); [right; left; reflexivity | left; reflexivity]. }
+  destruct (sigrefs_of L r) as [a|] eqn:Ea.
+  - destruct (load_at a) as [ta oa| |] eqn:Ela; try discriminate.
+    apply load_at_Loaded in Ela. destruct Ela as [-> [HUa Hva]].
+    unfold Fetch.ancestry_of.
+    destruct (N.eqb_spec a t) as [Eat|Nat].
+    + intros E. destruct (Hcheck _ eq_refl E) as [H1 [H2 H3]]. split; [exact H1|]. split; [|exact H3].
+      intros _ Hk Hn. split; [auto|]. intros a' Ha'. rewrite Ea in Ha'. injection Ha' as <-.
+      split; [left; exact Eat | exists oa; auto].
+    + destruct (anc a t) eqn:Eanc.
+      * intros E. destruct (Hcheck _ eq_refl E) as [H1 [H2 H3]]. split; [exact H1|]. split; [|exact H3].
+        intros _ Hk Hn. split; [auto|]. intros a' Ha'. rewrite Ea in Ha'. injection Ha' as <-.
+        split; [right; exact Eanc | exists oa; auto].
+      * destruct (anc t a).
+        -- intros E. inversion E; subst. split; [right; reflexivity|]. split; [|left; reflexivity].
+           intros _ Hd Hn. exfalso. apply Hn. rewrite <- Hd at 1. rewrite lookup_del, N.eqb_refl. reflexivity.
+        -- destruct (is_delegate c r); [discriminate|].
+           intros E. inversion E; subst. split; [right; reflexivity|]. split; [|left; reflexivity].
+           intros _ Hd Hn. exfalso. apply Hn. rewrite <- Hd at 1. rewrite lookup_del, N.eqb_refl. reflexivity.
+  - intros E. destruct (Hcheck _ eq_refl E) as [H1 [H2 H3]]. split; [exact H1|]. split; [|exact H3].
+    intros _ Hk Hn. split; [auto|]. intros a' Ha'. rewrite Ea in Ha'. discriminate.
+Qed.
+
+Lemma loop_step_inl c L e x : loop_step anc U c L (inl e) x = inl e.
+Proof. reflexivity. Qed.
+
+Lemma loop_fold c L xs : NoDup (map fst xs) -> forall tips valid tipsF validF,
+  fold_left (loop_step anc U c L) xs (inr (tips, valid)) = inr (tipsF, validF) ->
+  sorted valid ->
+  (forall r us, lookup r tipsF = Some us -> lookup r tips = Some us) /\
+  (forall x us, In x xs -> is_blocked c (fst x) = false -> lookup (fst x) tipsF = Some us ->
+     verdict_ok L (fst x) (fst (snd x)) (snd (snd x)) us) /\
+  sorted validF /\
+  (forall d, In d (keys validF) ->
+     In d (keys valid) \/
+     (is_delegate c d = true /\ is_blocked c d = false /\ exists x us, In x xs /\ fst x = d /\ lookup d tipsF = Some us)).
+Proof.
+  induction xs as [|x xs IH]; intros Hnd tips valid tipsF validF; cbn [fold_left].
+  - intros E Hsv. inversion E; subst. split; [auto|]. split; [intros y us0 []|].
+    split; [exact Hsv|]. intros d Hd. left. exact Hd.
+  - inversion Hnd; subst. intros E Hsv.
+    destruct (loop_step anc U c L (inr (tips, valid)) x) as [e|[tips1 valid1]] eqn:Est.
+    { rewrite (fold_loop_inl _ (loop_step_inl c L)) in E. discriminate. }
+    destruct (loop_step_inr _ _ _ _ _ _ _ Est) as [Ht [Hv Hval]].
+    assert (Hsv1 : sorted valid1).
+    { destruct Hval as [Hv1|[Hv1|[Hv1 _]]]; subst valid1; [exact Hsv | apply sorted_del; exact Hsv | apply sorted_insert; exact Hsv]. }
+    destruct (IH H2 _ _ _ _ E Hsv1) as [I1 [I2 [I3 I4]]].
+    assert (Hsub : forall r us, lookup r tips1 = Some us -> lookup r tips = Some us).
+    { intros r us. destruct Ht as [-> | ->]; [auto|]. rewrite lookup_del.
+      destruct (r =? fst x); [discriminate | auto]. }
+    split; [intros r us Hl; apply Hsub; apply I1; exact Hl|].
+    split; [|split; [exact I3|]].
+    + intros y us [Ey|Hy] Hb Hl.
+      * subst y. pose proof (I1 _ _ Hl) as Hl1.
+        assert (Ek : tips1 = tips).
+        { destruct Ht as [-> | ->]; [reflexivity|]. rewrite lookup_del, N.eqb_refl in Hl1. discriminate. }
+        subst tips1. assert (Hn : lookup (fst x) tips <> None) by congruence.
+        pose proof (Hv Hb eq_refl Hn) as Hver. unfold updates_of in Hver. rewrite Hl1 in Hver. exact Hver.
+      * apply (I2 y us Hy Hb Hl).
+    + intros d Hd. destruct (I4 d Hd) as [Hin|[Hdel [Hb [y [us [Hy [Ey Hl]]]]]]].
+      * destruct Hval as [Hv1|[Hv1|[Hv1 [Hdl [Hb [Ek Hvd]]]]]]; subst valid1.
+        -- left. exact Hin.
+        -- left. unfold keys, del in Hin. apply in_map_iff in Hin. destruct Hin as [z [Ez Hz]].
+           apply filter_In in Hz. apply in_map_iff. exists z. split; [exact Ez | apply Hz].
+        -- destruct (N.eq_dec d (fst x)) as [Ed|Nd].
+           ++ right. subst d. split; [exact Hdl|]. split; [exact Hb|].
+              subst tips1.
+              assert (Hne : lookup (fst x) tips <> None).
+              { unfold updates_of in Hvd. destruct (lookup (fst x) tips); [discriminate|].
+                unfold validate, mem_of in Hvd. cbn in Hvd. discriminate. }
+              destruct (lookup (fst x) tips) as [us|] eqn:El; [|congruence].
+              exists x, us. split; [left; reflexivity|]. split; [reflexivity|].
+              (* later steps do not touch this key *)
+              remember (sset_add (fst x) valid) as v1 eqn:Ev1. clear Ev1.
+              clear -E H1 El. revert tips v1 E El.
+              induction xs as [|y ys IHy]; intros tips v1 E El; cbn [fold_left] in E.
+              { inversion E; subst. exact El. }
+              destruct (loop_step anc U c L (inr (tips, v1)) y) as [e|[tips2 valid2]] eqn:Est.
+              { rewrite (fold_loop_inl _ (loop_step_inl c L)) in E. discriminate. }
+              destruct (loop_step_inr _ _ _ _ _ _ _ Est) as [Ht _].
+              apply (IHy (fun H => H1 (or_intror H)) tips2 valid2 E).
+              destruct Ht as [-> | ->]; [exact El|]. rewrite lookup_del.
+              destruct (N.eqb_spec (fst x) (fst y)) as [Exy|_]; [|exact El].
+              exfalso. apply H1. left. congruence.
+           ++ left. apply lookup_in_keys in Hin. apply lookup_in_keys.
+              unfold sset_add in Hin. rewrite lookup_insert_any in Hin.
+              destruct (N.eqb_spec d (fst x)); [contradiction | exact Hin].
+      * right. split; [exact Hdel|]. split; [exact Hb|]. exists y, us. split; [right; exact Hy | auto].
+Qed.
+
+End Stages.
+
+(* ------------------------------------------------------------------ *)
+(* assembling the run *)
+
+Section Run.
+Variable anc : oid -> oid -> bool.
+Variable U : universe.
+
+Lemma loop_fold_sorted c L xs : forall tips valid tipsF validF,
+  fold_left (loop_step anc U c L) xs (inr (tips, valid)) = inr (tipsF, validF) ->
+  sorted tips -> sorted tipsF.
+Proof.
+  induction xs as [|x xs IH]; intros tips valid tipsF validF; cbn [fold_left].
+  - intros E Hs. inversion E; subst. exact Hs.
+  - intros E Hs.
+    destruct (loop_step anc U c L (inr (tips, valid)) x) as [e|[tips1 valid1]] eqn:Est.
+    { rewrite (fold_loop_inl _ (loop_step_inl anc U c L)) in E. discriminate. }
+    destruct (loop_step_inr _ _ _ _ _ _ _ _ _ Est) as [Ht _].
+    apply (IH _ _ _ _ E). destruct Ht as [-> | ->]; [exact Hs | apply sorted_del; exact Hs].
+Qed.
+
+Lemma sset_of_list_spec l : forall acc : sset, sorted acc ->
+  let s := fold_left (fun s k => sset_add k s) l acc in
+  sorted s /\ forall d, In d (keys s) -> In d l \/ In d (keys acc).
+Proof.
+  induction l as [|k l IH]; intros acc Hs; cbn [fold_left].
+  - split; [exact Hs | auto].
+  - destruct (IH (sset_add k acc) (sorted_insert _ _ _ Hs)) as [I1 I2]. cbn zeta in *.
+    split; [exact I1|]. intros d Hd. destruct (I2 d Hd) as [H|H]; [left; right; exact H|].
+    apply lookup_in_keys in H. unfold sset_add in H. rewrite lookup_insert_any in H.
+    destruct (N.eqb_spec d k); [left; left; congruence | right; apply lookup_in_keys; exact H].
+Qed.
+
+Lemma valid0_spec c L :
+  sorted (valid0 c L) /\
+  forall d, In d (keys (valid0 c L)) -> is_delegate c d = true /\ sigrefs_of L d <> None.
+Proof.
+  unfold valid0, sset_of_list.
+  destruct (sset_of_list_spec (filter (fun r => is_delegate c r && isSome (sigrefs_of L r)) (keys L)) [] sorted_nil)
+    as [H1 H2]. cbn zeta in *. split; [exact H1|].
+  intros d Hd. destruct (H2 d Hd) as [H|[]].
+  apply filter_In in H. destruct H as [_ H]. apply andb_true_iff in H. destruct H as [Ha Hb].
+  split; [exact Ha|]. destruct (sigrefs_of L d); [discriminate | discriminate].
+Qed.
+
+(* what the plan guarantees about the updates that are going to be applied *)
+Definition planned (c : cfg) (L : store) (r : nid) (us : list update) : Prop :=
+  exists t o sp,
+    lookup t U = Some o /\ so_valid o = true /\ is_blocked c r = false /\
+    sp_shape (pol c r) t sp /\ us = sp ++ data_part (ns_of L r) (so_content o) /\
+    verdict_ok anc U L r t o us.
+
+Lemma plan_spec c L S tipsF validF : sorted S ->
+  plan anc U c L S = inr (tipsF, validF) ->
+  sorted tipsF /\
+  (forall r us, lookup r tipsF = Some us -> planned c L r us) /\
+  sorted validF /\
+  (forall d, In d (keys validF) ->
+     is_delegate c d = true /\ (sigrefs_of L d <> None \/ exists us, lookup d tipsF = Some us)).
+Proof.
+  intros HS. unfold plan.
+  destruct (negb (c_srv_canon c)); [discriminate|].
+  assert (Hst : forall s, match c_refs_at c with
+                          | Some ras => stage_sigrefs_at U c L ras
+                          | None => stage_special U c L S end = inr s -> staged_ok U c s).
+  { intros s. destruct (c_refs_at c) as [ras|]; [apply stage_sigrefs_at_ok | apply stage_special_ok; exact HS]. }
+  destruct (match c_refs_at c with Some ras => _ | None => _ end) as [e|s]; [discriminate|].
+  specialize (Hst s eq_refl).
+  destruct (stage_data_ok U c L s Hst) as [Esig [Hts Htok]]. cbn zeta in *.
+  set (s' := drop_unsigned (stage_data L s)) in *.
+  rewrite Esig. intros E.
+  destruct Hst as [_ [Hss _]].
+  pose proof (sorted_NoDup_keys _ Hss) as Hnd. unfold keys in Hnd.
+  destruct (valid0_spec c L) as [Hv0s Hv0].
+  destruct (loop_fold anc U c L (st_signed s) Hnd _ _ _ _ E Hv0s) as [I1 [I2 [I3 I4]]].
+  split; [eapply loop_fold_sorted; eauto|].
+  split; [|split; [exact I3|]].
+  - intros r us Hl. pose proof (I1 _ _ Hl) as Hl0.
+    destruct (Htok r us Hl0) as [t [o [sp [Hsg [HU [Hv [Hb [Hsh Eus]]]]]]]].
+    exists t, o, sp. split; [exact HU|]. split; [exact Hv|]. split; [exact Hb|].
+    split; [exact Hsh|]. split; [exact Eus|].
+    apply (I2 (r, (t, o)) us (lookup_In _ _ _ Hsg) Hb Hl).
+  - intros d Hd. destruct (I4 d Hd) as [H0|[Hdl [Hb [x [us [Hx [Ex Hl]]]]]]].
+    + destruct (Hv0 d H0) as [Ha Hb]. split; [exact Ha | left; exact Hb].
+    + split; [exact Hdl|]. right. exists us. exact Hl.
+Qed.
+
+Lemma apply_all_spec tips : sorted tips -> forall L L' ok,
+  apply_all anc L tips = (L', ok) ->
+  forall r,
+    (ns_of L' r = ns_of L r /\ (ok = true -> lookup r tips = None)) \/
+    (exists us ns' okr, lookup r tips = Some us /\ apply_ns anc (ns_of L r) us = (ns', okr) /\
+       ns_of L' r = ns' /\ (ok = true -> okr = true)).
+Proof.
+  induction tips as [|[r0 us0] rest IH]; intros Hs L L' ok; cbn [Fetch.apply_all].
+  - intros E r. inversion E; subst. left. split; reflexivity.
+  - apply sorted_cons_inv in Hs. destruct Hs as [Hs Hall].
+    destruct (apply_ns anc (ns_of L r0) us0) as [ns0 ok0] eqn:E0.
+    destruct ok0.
+    + intros E r. specialize (IH Hs _ _ _ E r). cbn [lookup].
+      destruct (N.eqb_spec r r0) as [->|Hne].
+      * assert (Hn : lookup r0 rest = None) by (apply lookup_none_lt; exact Hall).
+        right. exists us0, ns0, true. split; [reflexivity|]. split; [exact E0|].
+        destruct IH as [[Hsame _]|[us [ns' [okr [Hl _]]]]]; [|congruence].
+        rewrite Hsame, ns_of_put_ns, N.eqb_refl. auto.
+      * rewrite ns_of_put_ns in IH. destruct (N.eqb_spec r r0); [contradiction|]. exact IH.
+    + intros E r. inversion E; subst. cbn [lookup].
+      destruct (N.eqb_spec r r0) as [->|Hne].
+      * right. exists us0, ns0, false. split; [reflexivity|]. split; [exact E0|].
+        rewrite ns_of_put_ns, N.eqb_refl. split; [reflexivity | discriminate].
+      * left. rewrite ns_of_put_ns. destruct (N.eqb_spec r r0); [contradiction|].
+        split; [reflexivity | discriminate].
+Qed.
+
+(* the effect of a whole run on one namespace *)
+Lemma run_namespace c L S res L' r : sorted S ->
+  run anc U c L S = (res, L') ->
+  ns_of L' r = ns_of L r \/
+  exists t o,
+    lookup t U = Some o /\ so_valid o = true /\ is_blocked c r = false /\
+    ns_matches (ns_of L r) (ns_of L' r) t (so_content o) /\
+    (forall a, sigrefs_of L r = Some a -> a = t \/ anc a t = true).
+Proof.
+  intros HS. unfold run.
+  destruct (plan anc U c L S) as [e|[tips valid]] eqn:Ep.
+  { intros E. inversion E; subst. left. reflexivity. }
+  destruct (eff_threshold c <=? N.of_nat (length valid)).
+  2:{ intros E. inversion E; subst. left. reflexivity. }
+  destruct (apply_all anc L tips) as [L1 ok] eqn:Ea. intros E. inversion E; subst L1. clear E.
+  destruct (plan_spec c L S tips valid HS Ep) as [Hts [Hpl _]].
+  destruct (apply_all_spec tips Hts _ _ _ Ea r) as [[Hsame _]|[us [ns' [okr [Hl [Eap [Ens _]]]]]]].
+  { left. exact Hsame. }
+  destruct (Hpl r us Hl) as [t [o [sp [HU [Hv [Hb [Hsh [Eus [Hval Hanc]]]]]]]]].
+  subst us.
+  assert (Hanc' : forall a, lookup SIGREFS (ns_of L r) = Some a -> a = t \/ anc a t = true).
+  { intros a Ha. apply (Hanc a Ha). }
+  destruct (ns_match anc (ns_of L r) (so_content o) (pol c r) t sp Hsh Hval Hanc')
+    as [ns2 [ok2 [Eap2 [Hko Hok]]]].
+  rewrite Eap in Eap2. inversion Eap2; subst ns2 ok2.
+  destruct okr.
+  - right. exists t, o. rewrite Ens. repeat split; try assumption; try (apply Hok; reflexivity).
+  - left. rewrite Ens. apply Hko. reflexivity.
+Qed.
+
+End Run.
